@@ -35,27 +35,28 @@ CLAIM = {
     "technique": "Coq schedule model + driver-equivalence proofs; implementation environment differential; static census",
     "text": "PARTIAL - proved in Coq (Sim.v): InteractiveContext.step, a manual step and the step inside run() are the same "
             "function of the schedule state for arbitrary component behaviour, for any number of steps; run() is exactly the "
-            "steps taken before the stop time; set-iteration order cannot change a successful multi-column update, a table "
+            "steps taken before the stop time, and InteractiveContext.run/run_until/run_for are that same loop (also with per-simulant "
+            "clocks; refuted for the code before 98b7435f); set-iteration order cannot change a successful multi-column update, a table "
             "read as a map, or a stratification tuple.  Checked on the implementation each run: per-step SHA-1 digests of "
             "the state table and of the results agree across PYTHONHASHSEEDs, polluted global RNGs, prior contexts and six "
             "drivers for generated programs; the observed schedules satisfy the Coq model; the census of entropy sources in "
             "the framework source is unchanged.",
     "note": "PARTIAL - completeness of the list of entropy channels and everything about process state is established only by "
-            "the sampled environment differential and the static census, not by proof; InteractiveContext.run/run_until/"
-            "run_for are proved equal to run() only for a constant global step (false with per-simulant clocks: new finding "
-            "F-AB, kept out of the generator); trusted: probe components, canonicaliser, sub-process orchestration, dill, "
-            "pandas/numpy",
+            "the sampled environment differential and the static census, not by proof; trusted: probe components, canonicaliser, "
+            "sub-process orchestration, dill, pandas/numpy",
 }
 RULE = ("env: generated programs (2-8 minimum steps quick / 2-12 thorough, population 0-16 + births, both clocks, fractional "
         "steps, durations that are no multiple of the step) x 8 (quick: 3 sub-processes) / 24 (thorough: 6 sub-processes) environments grouped into fresh "
-        "sub-processes by PYTHONHASHSEED; distinct = distinct program; trivial = empty population and no births")
+        "sub-processes by PYTHONHASHSEED, 3 programs per sub-process (a failure is re-run alone, or recorded with its process history); distinct = distinct program; trivial = empty population and no births")
 ASSUMPTIONS = [
     "schedule cases are emitted relative to their first clock value and in units of the gcd of their durations (Sim.v is "
     "invariant under this affine change of time units: it only adds, subtracts, compares and takes minima of times)",
     "the probes' own logs (births, untracking, snoozes) and the step_size column after a step are the inputs of the "
     "schedule model (component behaviour is an arbitrary function in Sim.v)",
     "Timedelta/Timedelta division in run_until is exact for the magnitudes used (durations of a few days, steps of hours)",
-    "environments inside one sub-process run one after another: a later one also has the earlier ones as prior contexts",
+    "environments (and, in a batch, programs) inside one sub-process run one after another: a later one also has the earlier "
+    "ones as prior process history; a failure seen in a batch is re-run alone, and if it needs the history the history is stored "
+    "in the replay",
 ]
 TRUSTED = [
     "probe component library harness/probes.py and the sub-process worker harness/probes_worker.py",
@@ -79,21 +80,18 @@ POLLUTE = ["none", "seed", "consume", "both"]
 # ----------------------------------------------------------------------------------------------------------------
 # generation
 # ----------------------------------------------------------------------------------------------------------------
-def gen_envs(rng, program, n_groups, per_group):
-    const = probes.exact_constant_step(program)
-    drivers = [d for d in DRIVERS if const or d not in ("i_run", "i_run_for")]
-    # InteractiveContext.run/run_until/run_for count their iterations from the CURRENT global step: equal to run() only
-    # when the step is constant (theorem C01_run_until_eq_run_const_step_partial; finding F-AB otherwise)
+def gen_envs(rng, program, n_groups, per_group, hashseeds=None):
+    # all six drivers for every program: since /repo 98b7435f (finding F-AB) InteractiveContext.run/run_until/run_for are
+    # the same `while clock < end: step()` loop as run() - also with per-simulant clocks and inexact SimpleClock steps
+    # (theorem C01_run_until_eq_run)
+    drivers = list(DRIVERS)
+    hashseeds = hashseeds or draw_hashseeds(rng, n_groups)
     groups = [{"hashseed": 0, "envs": [{"driver": "run_simulation", "pollute": "none", "prior": 0}]}]
     todo = [d for d in drivers if d != "run_simulation"]
     rng.shuffle(todo)
     for g in range(n_groups):
         if g > 0:
-            used = {x["hashseed"] for x in groups}
-            hs = rng.choice([1, 2, 3, 17, 12345, rng.randint(4, 4000000)])
-            while hs in used:
-                hs = rng.randint(4, 4000000)
-            groups.append({"hashseed": hs, "envs": []})
+            groups.append({"hashseed": hashseeds[g], "envs": []})
         while len(groups[g]["envs"]) < per_group:
             d = todo.pop() if todo else rng.choice(drivers)
             e = {"driver": d, "pollute": rng.choice(POLLUTE), "prior": rng.choice([0, 0, 1, 2, 3])}
@@ -103,7 +101,17 @@ def gen_envs(rng, program, n_groups, per_group):
     return groups
 
 
-def gen_case(rng, tier):
+def draw_hashseeds(rng, n_groups):
+    """distinct PYTHONHASHSEEDs, the reference group always 0"""
+    hs = [0]
+    while len(hs) < n_groups:
+        h = rng.choice([1, 2, 3, 17, 12345, rng.randint(4, 4000000)])
+        if h not in hs:
+            hs.append(h)
+    return hs
+
+
+def gen_case(rng, tier, hashseeds=None):
     force = set()
     r = rng.random()
     if r < 0.25:
@@ -113,18 +121,57 @@ def gen_case(rng, tier):
     elif r < 0.5:
         force = {"residual", "obs", "tables"}
     program = probes.gen_program(rng, max_steps=8 if tier == "quick" else 12, force=force)
-    groups = gen_envs(rng, program, 3 if tier == "quick" else 6, 3 if tier == "quick" else 4)
+    groups = gen_envs(rng, program, 3 if tier == "quick" else 6, 3 if tier == "quick" else 4, hashseeds)
     if tier == "quick":
         groups[0]["envs"] = groups[0]["envs"][:2]          # 2 + 3 + 3 = 8 environments
     return {"program": program, "groups": groups}
 
 
+BATCH_PROGRAMS = 3      # programs per sub-process (they share the batch's PYTHONHASHSEEDs); start-up dominates the cost
+_BATCH = {"cases": [], "hashseeds": None}
+_RERUN = [False]
+
+
+class _Slice:
+    """future-like view: item `i` of a batched worker result, as the {"outs": ...} a single-program worker returns"""
+
+    def __init__(self, fut, i):
+        self.fut, self.i = fut, i
+
+    def result(self):
+        res = self.fut.result()
+        if "multi" not in res:
+            return res
+        return {"outs": res["multi"][self.i]}
+
+
+def _launch_many(cases):
+    """One sub-process per group index runs that group's environments of ALL the cases, one program after another.
+    The cases must agree on their groups' hash seeds."""
+    n_groups = len(cases[0]["groups"])
+    per_case = [[] for _ in cases]
+    for g in range(n_groups):
+        items = [{"program": c["program"], "envs": c["groups"][g]["envs"]} for c in cases]
+        fut = _POOL.submit(probes.spawn_worker, {"mode": "multi", "items": items}, cases[0]["groups"][g]["hashseed"])
+        for i in range(len(cases)):
+            per_case[i].append(_Slice(fut, i))
+    return per_case
+
+
 def _launch(case):
-    futs = []
-    for g in case["groups"]:
-        job = {"mode": "envs", "program": case["program"], "envs": g["envs"]}
-        futs.append(_POOL.submit(probes.spawn_worker, job, g["hashseed"]))
-    return futs
+    """Exactly this case: alone, or - when it carries a `prefix` (a failure that only showed up after other programs had
+    run in the same processes) - after the prefix programs, as in the batch that found it."""
+    prefix = case.get("prefix") or []
+    futs = _launch_many(prefix + [case])
+    return futs[-1]
+
+
+def _flush():
+    cases = _BATCH["cases"]
+    if cases:
+        for i, (c, futs) in enumerate(zip(cases, _launch_many(cases))):
+            _PENDING[_key(c)] = (futs, cases[:i])
+    _BATCH["cases"], _BATCH["hashseeds"] = [], None
 
 
 def _key(case):
@@ -132,9 +179,15 @@ def _key(case):
 
 
 def make_gen(tier):
+    n_groups = 3 if tier == "quick" else 6
+
     def gen(rng):
-        case = gen_case(rng, tier)
-        _PENDING[_key(case)] = _launch(case)      # sub-processes start now and run while the other cases are generated
+        if _BATCH["hashseeds"] is None:
+            _BATCH["hashseeds"] = draw_hashseeds(rng, n_groups)
+        case = gen_case(rng, tier, _BATCH["hashseeds"])
+        _BATCH["cases"].append(case)
+        if len(_BATCH["cases"]) >= BATCH_PROGRAMS:
+            _flush()                              # sub-processes start now and run while the other cases are generated
         return case
     return gen
 
@@ -150,7 +203,27 @@ def first_diff(a, b):
 
 
 def run_case(case):
-    futs = _PENDING.pop(_key(case), None) or _launch(case)
+    _flush()                                      # the last, possibly incomplete batch
+    pending = _PENDING.pop(_key(case), None)
+    if pending is None:
+        return evaluate(case, _launch(case))
+    futs, batch_prefix = pending
+    r = evaluate(case, futs)
+    if not r.ok and batch_prefix:
+        # the case ran after other programs in the same sub-processes: make the replay exact.  For the first failure of
+        # a run (the one that becomes the replay) try it alone first, to keep the replay minimal ...
+        if not _RERUN[0]:
+            _RERUN[0] = True
+            alone = evaluate(case, _launch(case))
+            if not alone.ok:
+                return alone
+        # ... otherwise record the process history in the case itself (replays store the case and re-run it with it)
+        case["prefix"] = [{"program": c["program"], "groups": c["groups"]} for c in batch_prefix]
+        r.msg += " (observed after the programs in case.prefix had run in the same sub-processes)"
+    return r
+
+
+def evaluate(case, futs):
     program = case["program"]
     envs, outs = [], []
     for g, f in zip(case["groups"], futs):
@@ -224,14 +297,14 @@ def corpus():
             if f.startswith("case_") and f.endswith(".json"):
                 out.append(json.load(open(os.path.join(d, f))))
     for c in out:
-        _PENDING[_key(c)] = _launch(c)
+        _PENDING[_key(c)] = (_launch(c), [])
     return out
 
 
 def streams(tier):
     b = _BOOST[0]
     return [Stream(name="env", imports="From Viv Require Import Common Sim.", check="check_scheds",
-                   gen=make_gen(tier), run=run_case, n_quick=6 * b, n_thorough=40 * b, corpus=corpus,
+                   gen=make_gen(tier), run=run_case, n_quick=15 * b, n_thorough=42 * b, corpus=corpus,
                    doc="environment differential + schedule correspondence")]
 
 
@@ -401,32 +474,7 @@ def tables(run):
     if gone:
         run.notes.append("census entries that disappeared (harmless, update corpus/C01/census.json): " + json.dumps(gone))
     run.notes.append("census detail: " + "; ".join(f"{rel}:{where}[{kind}]" for rel, kind, txt, line, where in entries))
-    try:
-        run.notes.append(fs_probe())
-    except Exception as e:       # the probe is informational only
-        run.notes.append(f"F-AB probe could not run: {type(e).__name__}: {e}")
     return []
-
-
-# ----------------------------------------------------------------------------------------------------------------
-# finding F-AB (new, reported; NOT part of the generated differential): InteractiveContext.run() vs run() with a
-# varying global step
-# ----------------------------------------------------------------------------------------------------------------
-FS_PROGRAM = {"seed": 1, "pop": 1, "clock": "datetime", "step": 1, "std": None, "n_min_steps": 3, "end_frac": 0, "crn": False,
-              "components": [{"kind": "recorder"}, {"kind": "base_pop"}, {"kind": "stepmod", "a": 0, "b": 1, "c": 3}]}
-
-
-def fs_probe():
-    a = probes.run_program(FS_PROGRAM, {"driver": "manual", "reset": True})
-    try:
-        b = probes.run_program(FS_PROGRAM, {"driver": "i_run", "reset": True})
-        nb = len(b["digests"])
-    except BaseException as e:   # noqa: B902
-        nb = f"{type(e).__name__}"
-    boot.reset_contexts()
-    return (f"finding F-AB (InteractiveContext.run counts iterations from the current global step): run() takes "
-            f"{len(a['digests'])} steps, InteractiveContext.run() takes {nb} on the 1-simulant program with 1/2/3-day "
-            f"steps (standalone replay: corpus/C01/FAB_demo.py) - " + ("REPRODUCES" if nb != len(a["digests"]) else "does not reproduce"))
 
 
 def generate_census():
